@@ -160,6 +160,25 @@ pub fn menu(quick: bool) -> Vec<(String, LmSpec)> {
             LmSpec { vars: bools(items as usize), rows: vec![row(&vv, Rel::Ge, (totv / 2.0).floor() + 0.5, "need")], obj: wv, offset: 0.25, sense: Sense::Min },
         ));
     }
+    // mixed-integer models as the compiler produces them (selector binaries, big-M rows): every k-th
+    // objective model of the C02 family that compiles to a model with integer auxiliaries
+    let n = crate::props::c02::family_size_pub(1, true);
+    let mut taken = 0;
+    let want = if quick { 60 } else { 600 };
+    let stride = (n / (want as u64 * 3)).max(1);
+    let mut i = 0;
+    while i < n && taken < want {
+        let case = crate::props::c02::family_pub(i, 1, true);
+        if let Ok(Ok(lm)) = crate::core::catch(|| case.model.compile()) {
+            if let Some(spec) = LmSpec::from_rooc(&lm) {
+                if !spec.all_continuous() && spec.vars.len() <= 9 && !crate::props::c01::is_inexact(&case.model) {
+                    out.push((format!("compiled-{i}"), spec));
+                    taken += 1;
+                }
+            }
+        }
+        i += stride;
+    }
     out
 }
 
@@ -337,7 +356,7 @@ pub fn run(mut run: Run) -> ! {
     run.isolate = true;
     run.case_timeout_s = 60.0;
     let m = menu(run.quick());
-    run.rule = "for every MILP/LP model of the menu (knapsack, covering, mixed-integer, general-integer, infeasible, unbounded, pure LP; plus every knapsack (max, <=) and covering (min, >=) problem over weight/value menus of 3 values: all 2 x 729 three-item ones in the quick tier, all 2 x 6561 four-item ones in the thorough tier) the number N of clock reads of the uninterrupted search is measured under the virtual clock, then the search is run for EVERY expiry point k = 0..N+1 (time_limit = k ns) x 11 mip_gap values x 2 entry points (solve_milp_lp_problem_with; the builder solver object Microlp::new().with_mip_gap().with_time_limit() in both call orders), plus the builder object with a gap and no time limit; evaluations = models, coverage.expiry_points = executions; non-trivial = model with a finite optimum".into();
+    run.rule = "for every MILP/LP model of the menu (knapsack, covering, mixed-integer, general-integer, infeasible, unbounded, pure LP, 60 (thorough: 600) mixed-integer models compiled from the C02 objective family; plus every knapsack (max, <=) and covering (min, >=) problem over weight/value menus of 3 values: all 2 x 729 three-item ones in the quick tier, all 2 x 6561 four-item ones in the thorough tier) the number N of clock reads of the uninterrupted search is measured under the virtual clock, then the search is run for EVERY expiry point k = 0..N+1 (time_limit = k ns) x 11 mip_gap values x 2 entry points (solve_milp_lp_problem_with; the builder solver object Microlp::new().with_mip_gap().with_time_limit() in both call orders), plus the builder object with a gap and no time limit; evaluations = models, coverage.expiry_points = executions; non-trivial = model with a finite optimum".into();
     run.assume("virtual clock replaces crate web-time (the only clock microlp reads): each read advances time by 1 ns, so real executions are a subset of the enumerated expiry points (a real deadline also fires at some clock read and stays fired)");
     run.assume("exact MILP optimum by integer box enumeration + exact LP; feasibility certificate at 1e-6; Optimal label must be within gap*max(|value|,1e-10) (+1e-6 relative) of the optimum");
     let m2 = m.clone();
